@@ -97,6 +97,8 @@ type FakeDocker struct {
 	listErr bool
 	faults  []Fault
 	frag    []int // read-size pattern, cycled; empty = unlimited
+	// endWithData: the read that delivers the last bytes also reports the end of the stream (or the transport error)
+	endWithData bool
 
 	round    int
 	readerID int
@@ -362,6 +364,21 @@ func (r *fakeReader) Read(p []byte) (int, error) {
 	}
 	copy(p, r.data[r.pos:r.pos+n])
 	r.pos += n
+	if r.d.endWithData && r.pos >= limit {
+		// the io.Reader contract allows the last bytes to come together with the end (or the error): n > 0 and err != nil
+		if r.errAt >= 0 && r.pos == r.errAt {
+			if !r.hit {
+				r.hit = true
+				r.d.ev("FaultHit", F{"reader": r.id, "ctr": r.ctr, "kind": "readerr", "pos": r.pos})
+			}
+			return n, errFakeRead
+		}
+		if !r.hit {
+			r.hit = true
+			r.d.ev("Eof", F{"reader": r.id, "ctr": r.ctr, "pos": r.pos, "cut": r.cut >= 0 && r.pos == r.cut && r.cut < len(r.data)})
+		}
+		return n, io.EOF
+	}
 	return n, nil
 }
 
